@@ -11,6 +11,17 @@ HOOK_COMMITS = []  # filled in when hooks are committed to /repo
 TRUST = "TLC/SANY, the VFloat override (self-tested in setup), JAX/XLA arithmetic, the drivers' projection functions (exercised by corruption self-tests)"
 
 CHECKS = {
+    "C05": dict(
+        text="The decision rule is a TLA+ operator over IEEE doubles (VFloat); TLC enumerates every "
+             "(current, proposed, correction, u) over a grid containing +-inf, NaN and the boundary draw u = 0 and "
+             "checks every clause of the property; the real mh_step is bound by trace validation: one trace per "
+             "PRNG key over the whole input grid (vmap+jit, jit, eager), the unobservable uniform draw is a hidden "
+             "variable whose feasible interval must stay non-empty, keys whose draw is exactly 0.0 are searched for "
+             "at check time and included.",
+        note="Assumes the uniform draw is in [0,1) and a function of the key only. " + TRUST,
+        technique="TLA+ spec (MHStep) with IEEE operator override + TLC enumeration + trace validation with a hidden variable",
+        ref="DESIGN.md section 5, C05",
+    ),
     "C16": dict(
         text="Design theorem by exhaustive TLC (every reachable EpochManager state x every candidate config: "
              "code-shaped acceptance rule <=> validity predicate written from the property; every stan_epochs "
